@@ -1,10 +1,105 @@
 """C13 - ephemeral HTTP instances expire without heartbeats, never while heart-beating."""
 import json
+import os
+import re
 import shutil
+import subprocess
+import time
 
+import cluster
 import vlib
-from vlib import Check
+from vlib import Check, ToolError
 from checks import registry_common as rc
+
+NEVER = 999999999
+
+
+def cluster_leg(c, sc):
+    """'... and then everywhere': HTTP instances of one service on a real three-node cluster stop beating (health
+    time-out 4 s, instance time-out 9 s); every node is sampled every 0.4 s; each state change seen on the responsible
+    node must appear on the others within the budget.  Every node pulls the other nodes' instances 1 s, 15 s and 45 s
+    after its start (a pull also refreshes the pulled copies): W is registered before the 15 s pull and expires after it
+    (its supervision must survive the pull); X, Y, Z are registered after it, Y exactly (instance time-out - health
+    time-out) = 5 s after X, so that X's removal and Y's unhealthy mark fall into the same 2 s check tick, and nothing
+    but the expiry sync itself can carry Y's mark to the other nodes before Y is removed."""
+    env = {"RNACOS_NAMING_HEALTH_TIMEOUT_SECOND": "4", "RNACOS_NAMING_INSTANCE_TIMEOUT_SECOND": "9"}
+    cl = cluster.Cluster(os.path.join(sc, "cl"), 3, extra_env=env)
+    svc = "svc13"
+    insts = {"W": "10.3.0.4", "X": "10.3.0.1", "Y": "10.3.0.2", "Z": "10.3.0.3"}
+    samples = []
+    try:
+        cl.start()
+        t0 = time.time()
+        regs = {}
+        plan = [("W", 9.0, 2), ("X", 17.0, 1), ("Y", 22.0, 2), ("Z", 24.0, 3)]
+        end = t0 + 41.5
+        while time.time() < end:
+            now = time.time() - t0
+            for name, at, via in plan:
+                if name not in regs and now >= at:
+                    r = cl.nodes[via].call({"op": "ns_http_register", "service": svc, "ip": insts[name], "port": 80})
+                    if r.get("res") != "ok":
+                        raise ToolError("HTTP-style register failed: %s" % r)
+                    regs[name] = now
+            for n, nd in cl.nodes.items():
+                d = nd.call({"op": "ns_dump"})
+                st = {}
+                for i in d.get("instances", []):
+                    if i["service"] == svc:
+                        st[i["ip"]] = (i["healthy"], i["from_cluster"], i["lm"])
+                samples.append((int((time.time() - t0) * 1000), n, st))
+            time.sleep(0.35)
+    finally:
+        cl.shutdown()
+    obs = []
+    for name, ip in insts.items():
+        if name not in regs:
+            continue
+        # the responsible node holds the instance as its own (from_cluster = 0)
+        owner = next((n for t, n, st in samples if ip in st and st[ip][1] == 0), None)
+        if owner is None:
+            raise ToolError("no node holds %s as its own instance" % name)
+
+        def first(n, pred, after=0):
+            return next((t for t, m, st in samples if m == n and t >= after and pred(st)), NEVER)
+        seen = first(owner, lambda st: ip in st)
+        t_unh = first(owner, lambda st: ip in st and not st[ip][0], seen)
+        t_gone = first(owner, lambda st: ip not in st, seen)
+        for state, t_owner, pred, cfg_ms in (("unhealthy", t_unh, lambda st: ip not in st or not st[ip][0], 4000),
+                                             ("gone", t_gone, lambda st: ip not in st, 9000)):
+            # the clock the time-out runs on: the instance's last modification on the responsible node, as that node
+            # reports it (a registration, a heartbeat, or the refresh that comes with a snapshot pull), in ms since t0
+            lms = [st[ip][2] - int(t0 * 1000) for t, m, st in samples if m == owner and ip in st and t <= t_owner]
+            base = lms[-1]
+            others = []
+            for n in cl.nodes:
+                if n != owner and t_owner != NEVER:
+                    s0 = first(n, lambda st: ip in st)
+                    others.append({"n": n, "t": first(n, pred, s0 if s0 != NEVER else 0)})
+            obs.append({"instance": name, "ip": ip, "state": state, "owner": owner, "t_owner": t_owner, "others": others,
+                        "base": base, "cfg": cfg_ms, "end": samples[-1][0], "registered_at_ms": int(regs[name] * 1000)})
+    of = vlib.write_ndjson(os.path.join(sc, "expiry_obs.ndjson"), obs)
+    e = dict(os.environ, JAVA_TOOL_OPTIONS="-Xss1g", OBS=of)
+    meta = os.path.join(vlib.TLCDIR, "c13_chk")
+    r = subprocess.run(["timeout", "300", "tlc", "-workers", "1", "-metadir", meta, "-cleanup", "-noGenerateSpecTE", "-config",
+                        "CHK_ExpiryCluster.cfg", "ExpiryCluster.tla"], cwd=vlib.SPEC, stdout=subprocess.PIPE, stderr=subprocess.STDOUT, text=True, env=e)
+    if "Model checking completed. No error has been found" not in r.stdout:
+        import sys
+        sys.stderr.write(r.stdout[-2000:])
+        raise ToolError("TLC failed evaluating ExpiryCluster")
+    c.add_mc({"generated": 2, "distinct": 2, "depth": 2, "wall_s": 0, "actions": {}, "cfg": "CHK_ExpiryCluster.cfg", "module": "ExpiryCluster.tla"})
+    for req, i in [(m.group(1), int(m.group(2))) for m in re.finditer(r'<<"REQ-FAILED", "(\w+)", (\d+)>>', r.stdout)]:
+        o = obs[i - 1]
+        c.violation("C13:%s@cluster:%s" % (req, o["state"]),
+                    "real 3-node cluster: instance %s (last modified at %d ms, no heartbeats) became %s on its responsible node %d at %d ms "
+                    "(configured time-out %d ms, sampling ended at %d ms), the other nodes reported it at %s "
+                    "(budget 3500 ms; %d = never within the sampling)" % (o["instance"], o["base"], o["state"], o["owner"], o["t_owner"],
+                                                                       o["cfg"], o["end"], [(x["n"], x["t"]) for x in o["others"]], NEVER),
+                    {"observation": o})
+    c.count(len(obs), [{"i": o["instance"], "s": o["state"]} for o in obs])
+    c.traces(1)
+    c.cov["cluster_state_changes_observed"] = len(obs)
+    c.cov["cluster_samples"] = len(samples)
 
 
 def run(tier):
@@ -21,12 +116,15 @@ def run(tier):
     # real clock on NamingActor: fewer behaviours (each tick is 300 ms)
     rt = [b for b in beh if has_expiry(b)][: (80 if quick else 800)]
     rc.replay(c, rt, sc, "actor", "NamingActor (real clock)", has_expiry, H=1, T=3, name="rt")
+    cluster_leg(c, sc)
     c.cov["behaviours_with_expiry"] = sum(1 for b in beh if has_expiry(b))
     c.sample({"behaviour_ops": [(s["op"], s.get("a"), s.get("now")) for s in beh[0]["steps"]]})
     c.assumptions += [
         "virtual clock: Service::time_check takes the two thresholds as arguments and instances carry their "
         "last-modified time, so H and T are exact; real clock: one tick = 300 ms, thresholds half a tick early",
-        "'then everywhere' (propagation of the removal to other nodes) belongs to C15",
+        "'then everywhere': one real three-node cluster run (time-outs 4 s / 9 s, four instances of one service, one "
+        "registered before and three after the nodes' 15 s snapshot pull, two of them exactly 5 s apart, no beats), every node sampled every ~0.4 s; a state change on the responsible node must show "
+        "on the others within 3.5 s (requirement evaluated by TLC, ExpiryCluster.tla)",
     ]
     shutil.rmtree(sc, ignore_errors=True)
     return c.finish(
